@@ -34,6 +34,9 @@
 (*   shl shr sar rol ror):  a 32-bit write ZERO-EXTENDS, i.e. clears the upper half                                *)
 (*   <<"qset16",q,a>> <<"qset8",q,a>>  (16/8-bit partial writes: everything else is preserved)                     *)
 (*   <<"qinitall",lo,hi>>   <<"qfold",acc,lo,hi>>  (acc folds hi then lo of every q)                               *)
+(*   <<"qsh",op,d,q>>  (shl/shr/sar d by CL = low byte of q: q must sit in rcx)                                    *)
+(*   <<"call3",d,q,b>>  (C helper taking the 64-bit q and the 32-bit b in argument registers)                       *)
+(*   <<"call4",q,a>>    (C helper returning a 64-bit value with non-zero upper half into q)                          *)
 EXTENDS Integers, Sequences, FiniteSets, TLC, Bitwise
 
 M16 == 65536
@@ -49,6 +52,7 @@ Shr16(a, c) == LET k == c % 32 IN IF k >= 16 THEN 0 ELSE a \div Pow2(k)
 InitConst(v) == (v * 7919 + 13) % M16
 
 H1(a, b) == (3 * a + b + 7) % M16
+H3(h, l, b) == (h + 3 * l + b + 11) % M16
 H2(s) == (s[1] + 2 * s[2] + 3 * s[3] + 4 * s[4] + 5 * s[5] + 6 * s[6] + 7 * s[7] + 8 * s[8] + 1) % M16
 
 Cond(cc, a, b) ==
@@ -83,12 +87,16 @@ RegsOf(I) ==
     [] op = "vfold" -> <<I[2]>>
     [] op = "qset" -> <<I[3], I[4]>>
     [] op \in {"qhi", "qlo", "qfold"} -> <<I[2]>>
+    [] op = "qsh" -> <<I[3]>>
+    [] op = "call3" -> <<I[2], I[4]>>
+    [] op = "call4" -> <<I[3]>>
     [] op \in {"qsx", "qset16", "qset8"} -> <<I[3]>>
     [] OTHER -> <<>>
 QRegsOf(I) ==
   LET op == I[1] IN
-  CASE op \in {"qset", "qsx", "qset16", "qset8"} -> <<I[2]>>
-    [] op \in {"qhi", "qlo", "qop0"} -> <<I[3]>>
+  CASE op \in {"qset", "qsx", "qset16", "qset8", "call4"} -> <<I[2]>>
+    [] op \in {"qhi", "qlo", "qop0", "call3"} -> <<I[3]>>
+    [] op = "qsh" -> <<I[4]>>
     [] op \in {"qmov", "qxor", "qmov32", "qinitall"} -> <<I[2], I[3]>>
     [] op = "qfold" -> <<I[3], I[4]>>
     [] OTHER -> <<>>
@@ -130,7 +138,8 @@ XReads(I) ==
     [] OTHER -> {}
 QReads(I) ==
   LET op == I[1] IN
-  CASE op \in {"qhi", "qlo", "qop0"} -> {I[3]}
+  CASE op \in {"qhi", "qlo", "qop0", "call3"} -> {I[3]}
+    [] op = "qsh" -> {I[4]}
     [] op \in {"qmov", "qmov32"} -> {I[3]}
     [] op = "qxor" -> {I[2], I[3]}
     [] op \in {"qset16", "qset8"} -> {I[2]}
@@ -138,7 +147,7 @@ QReads(I) ==
     [] OTHER -> {}
 QWrites(I) ==
   LET op == I[1] IN
-  CASE op \in {"qset", "qmov", "qxor", "qmov32", "qsx", "qset16", "qset8"} -> {I[2]}
+  CASE op \in {"qset", "qmov", "qxor", "qmov32", "qsx", "qset16", "qset8", "call4"} -> {I[2]}
     [] op = "qop0" -> {I[3]}
     [] op = "qinitall" -> I[2]..I[3]
     [] OTHER -> {}
@@ -179,14 +188,16 @@ Reads(I) ==
     [] op = "vfold" -> {I[2]}
     [] op \in {"vget", "vmov", "vxor", "vor", "vand", "vinitall"} -> {}
     [] op = "qset" -> {I[3], I[4]}
-    [] op \in {"qsx", "qset16", "qset8"} -> {I[3]}
+    [] op \in {"qsx", "qset16", "qset8", "qsh", "call4"} -> {I[3]}
+    [] op = "call3" -> {I[4]}
     [] op = "qfold" -> {I[2]}
     [] op \in {"qhi", "qlo", "qmov", "qxor", "qmov32", "qop0", "qinitall"} -> {}
 
 Writes(I) ==
   LET op == I[1] IN
   CASE op \in {"movi", "mov", "add", "sub", "imul", "and", "or", "xor", "addi", "subi", "muli", "andi", "ori", "neg", "not",
-               "shl", "shr", "sar", "xorself", "ld", "sld", "sldx", "call1", "call2", "fold", "vget", "vfold", "qhi", "qlo", "qfold"} -> {I[2]}
+               "shl", "shr", "sar", "xorself", "ld", "sld", "sldx", "call1", "call2", "fold", "vget", "vfold", "qhi", "qlo", "qfold", "call3"} -> {I[2]}
+    [] op = "qsh" -> {I[3]}
     [] op = "setcc" -> {I[5]}
     [] op = "cmov" -> {I[5]}
     [] op \in {"div", "idiv", "mul"} -> {I[2], I[3]}
@@ -286,6 +297,10 @@ Exec(prog, m) ==
     [] op = "qset8" -> [m1 EXCEPT !.q[I[2]] = <<q[I[2]][1], (q[I[2]][2] \div 256) * 256 + (r[I[3]] % 256)>>, !.pc = @ + 1]
     [] op = "qinitall" -> [m1 EXCEPT !.q = [v \in DOMAIN q |-> IF v \in I[2]..I[3] THEN <<InitConst(2000 + v), InitConst(3000 + v)>> ELSE q[v]], !.pc = @ + 1]
     [] op = "qfold" -> Set(m1, I[2], QFoldVal(q, r[I[2]], I[3], I[4]))
+    [] op = "qsh"  -> Set(m1, I[3], IF I[2] = "shl" THEN Shl16(r[I[3]], q[I[4]][2]) ELSE Shr16(r[I[3]], q[I[4]][2]))
+    [] op = "call4" -> [m1 EXCEPT !.q[I[2]] = <<(5 * r[I[3]] + 1) % M16, (r[I[3]] + 9) % M16>>, !.log = Append(@, <<4, r[I[3]]>>), !.pc = @ + 1]
+    [] op = "call3" -> [m1 EXCEPT !.r[I[2]] = H3(q[I[3]][1], q[I[3]][2], r[I[4]]),
+                                  !.log = Append(@, <<3, q[I[3]][1], q[I[3]][2], r[I[4]]>>), !.pc = @ + 1]
     [] op = "ret"  -> [m1 EXCEPT !.ret = r[I[2]], !.halted = TRUE]
 
 (* one step of one machine; an ill-defined step or running off the end marks the machine bad (generator bug) *)
